@@ -189,6 +189,8 @@ fn vec_case(sink: &mut Sink, id: &str, r: &mut Rng, steps: usize) {
     {
         let cap = [1usize, 2, 4, 16][r.below(4)];
         let mut ov: ObservableVector<Tok> = ObservableVector::with_capacity(cap);
+        // subscriptions are also taken from a vector that already has items (the subscriber then owns a snapshot)
+        for _ in 0..r.below(4) { ov.push_back(Tok::new(r.below(9) as u64)); }
         let mut plain = Some(Box::pin(ov.subscribe().into_stream()));
         let mut batched = Some(Box::pin(ov.subscribe().into_batched_stream()));
         let (_iv, st) = ov.subscribe().head(3);
@@ -229,12 +231,20 @@ fn vec_case(sink: &mut Sink, id: &str, r: &mut Rng, steps: usize) {
                             _ => { t.pop_front(); }
                         }
                         if k == 0 && r.chance(1, 6) { plain = None; batched = None; chain = None; dyn_tail = None; }
+                        if r.chance(1, 5) { t.rollback(); }
                     }
                     if r.chance(3, 4) { t.commit(); }
                 }
                 15 if r.chance(1, 4) => {
                     match r.below(4) { 0 => plain = None, 1 => batched = None, 2 => chain = None, _ => dyn_tail = None }
                 }
+                // a new subscription replaces an old one: from the current (usually non-empty) contents, in every conversion
+                15 => match r.below(4) {
+                    0 => plain = Some(Box::pin(ov.subscribe().into_stream())),
+                    1 => batched = Some(Box::pin(ov.subscribe().into_batched_stream())),
+                    2 => { let (vals, st) = ov.subscribe().into_values_and_stream(); drop(vals); plain = Some(Box::pin(st)); }
+                    _ => { let (vals, st) = ov.subscribe().into_values_and_batched_stream(); drop(vals); batched = Some(Box::pin(st)); }
+                },
                 _ => {
                     let mut cx = Context::from_waker(&wk);
                     for _ in 0..r.below(4) {
